@@ -65,6 +65,8 @@ type Script struct {
 	// (ENOENT, some of its URRs are gone by the time it is evaluated)
 	TickSlowMs int  `json:"tick_slow_ms,omitempty"`
 	QueryErr   bool `json:"query_err,omitempty"`
+	// Watch (real-ticker scripts): after the schedule every session that is still there must go on reporting periodically
+	Watch bool `json:"watch,omitempty"`
 	// Window, when set, replaces the script by a history of package rxwindow: a burst of requests whose retention timers all fire
 	// while the loop is busy (its timer queue holds 64 expiries); every request made afterwards must be answered
 	Window *rxwindow.Case `json:"window,omitempty"`
@@ -82,21 +84,23 @@ type RealEv struct {
 }
 
 type Result struct {
-	OK            bool     `json:"ok"`
-	Cycle         string   `json:"cycle,omitempty"`
-	States        []string `json:"states,omitempty"`
-	Inconclusive  string   `json:"inconclusive,omitempty"`
-	Crash         string   `json:"crash,omitempty"`
-	TimerEvents   int      `json:"timer_events"`         // events the loop posts to the periodic server in one turn
-	Reported      int      `json:"reported"`             // sessions one tick reports
-	InFlight      int      `json:"in_flight"`            // notifications written while the loop was busy
-	Lost          string   `json:"lost,omitempty"`       // a notification consumed by the listener that never reached its packet queue
-	Checked       int      `json:"checked,omitempty"`    // usage reports that reached the SMF and were compared with what the data plane had measured for their session
-	Unanswered    string   `json:"unanswered,omitempty"` // a request that is never answered although the loop is alive
-	TimerExpiries int      `json:"timer_expiries,omitempty"`
-	HeldFull      bool     `json:"held_full,omitempty"` // the tick's query was inside the data plane while the periodic server's queue filled up
-	BusyRemovals  int      `json:"busy_removals"`       // real-ticker scripts: deletions landing while the periodic server is inside a slow query
-	WallMs        int64    `json:"wall_ms"`
+	OK            bool                   `json:"ok"`
+	Cycle         string                 `json:"cycle,omitempty"`
+	States        []string               `json:"states,omitempty"`
+	Inconclusive  string                 `json:"inconclusive,omitempty"`
+	Crash         string                 `json:"crash,omitempty"`
+	TimerEvents   int                    `json:"timer_events"`         // events the loop posts to the periodic server in one turn
+	Reported      int                    `json:"reported"`             // sessions one tick reports
+	InFlight      int                    `json:"in_flight"`            // notifications written while the loop was busy
+	Lost          string                 `json:"lost,omitempty"`       // a notification consumed by the listener that never reached its packet queue
+	Checked       int                    `json:"checked,omitempty"`    // usage reports that reached the SMF and were compared with what the data plane had measured for their session
+	Unanswered    string                 `json:"unanswered,omitempty"` // a request that is never answered although the loop is alive
+	TimerExpiries int                    `json:"timer_expiries,omitempty"`
+	HeldFull      bool                   `json:"held_full,omitempty"` // the tick's query was inside the data plane while the periodic server's queue filled up
+	BusyRemovals  int                    `json:"busy_removals"`       // real-ticker scripts: deletions landing while the periodic server is inside a slow query
+	WallMs        int64                  `json:"wall_ms"`
+	seen          map[uint64][]time.Time // real-ticker scripts: when usage reports arrived, by CP SEID
+	Watched       int                    `json:"watched,omitempty"` // real-ticker scripts: sessions whose periodic reports were awaited after the last event
 }
 
 var periodSecs = []uint32{3600, 7200, 10800}
@@ -356,6 +360,14 @@ func runScript(s Script) (res Result) {
 		if o.Stuck {
 			wedge(what)
 			return false
+		}
+		for _, q := range o.SRRs {
+			if len(stack.UsageReports(q.Msg)) > 0 {
+				if res.seen == nil {
+					res.seen = map[uint64][]time.Time{}
+				}
+				res.seen[q.SEID] = append(res.seen[q.SEID], time.Now())
+			}
 		}
 		for k := range r.Pending {
 			r.Pending[k] = nil
@@ -622,6 +634,10 @@ func runReal(s Script, f *fullstack.Full, step func(stack.Op, string) bool, res 
 	t0 := time.Now()
 	nest := 0
 	defer f.D.K.PsLatency.Store(0)
+	f.D.K.MultiErrIfMissing.Store(s.QueryErr)
+	defer f.D.K.MultiErrIfMissing.Store(false)
+	period := map[int]int{}
+	gone := map[int]bool{}
 	for _, ev := range s.Real {
 		if d := time.Until(t0.Add(time.Duration(ev.AtMs) * time.Millisecond)); d > 0 {
 			time.Sleep(d)
@@ -637,18 +653,58 @@ func runReal(s Script, f *fullstack.Full, step func(stack.Op, string) bool, res 
 			if !step(stack.Op{Kind: "est", Peer: 0, Node: 0, Sess: -1, CP: uint64(0x1000 + nest), Rules: rules}, fmt.Sprintf("establishment %d", nest)) {
 				return false
 			}
+			period[nest] = max(ev.Period, 1)
 			nest++
 		case "del":
 			if ev.Sess < nest {
 				if !step(stack.Op{Kind: "del", Peer: 0, Sess: ev.Sess}, fmt.Sprintf("deletion of %d", ev.Sess)) {
 					return false
 				}
+				gone[ev.Sess] = true
 			}
 		case "slow":
 			f.D.K.PsLatency.Store(int64(time.Duration(ev.SlowMs) * time.Millisecond))
 		}
 	}
 	res.BusyRemovals = busyRemovals(s)
+	if s.Watch {
+		// every report eventually forwarded: whatever happened to other sessions' rules and to the ticks that were in progress,
+		// a session that is still there goes on reporting - two of its periods (and a margin) are allowed for the next report
+		f.D.K.PsLatency.Store(0)
+		if !step(stack.Op{Kind: "hb", Peer: 0, Sess: -1}, "end of the schedule") { // what arrived so far is stamped now
+			return false
+		}
+		tEnd := time.Now()
+		longest := 0
+		for i := 0; i < nest; i++ {
+			if !gone[i] && period[i] > longest {
+				longest = period[i]
+			}
+		}
+		if longest > 0 {
+			time.Sleep(time.Duration(2*longest)*time.Second + 700*time.Millisecond)
+			if !step(stack.Op{Kind: "hb", Peer: 0, Sess: -1}, "watching periodic reports") {
+				return false
+			}
+			for i := 0; i < nest; i++ {
+				if gone[i] {
+					continue
+				}
+				res.Watched++
+				late := 0
+				for _, at := range res.seen[uint64(0x1000+i)] {
+					if at.After(tEnd) {
+						late++
+					}
+				}
+				if late == 0 {
+					res.Lost = fmt.Sprintf("session %d (measurement period %d s) is alive, but no periodic usage report of it reached the SMF during the %d s after the last event of the schedule (%d reports before)",
+						i, period[i], 2*longest, len(res.seen[uint64(0x1000+i)]))
+					return false
+				}
+			}
+		}
+	}
 	return true
 }
 
@@ -802,6 +858,9 @@ func account(s Script, r Result) {
 		vcore.E.Class("more_than_64_timer_expiries_while_the_loop_was_busy")
 		vcore.E.NonTrivial(vcore.JSON(s))
 	}
+	if r.Watched > 0 {
+		vcore.E.Class("real-tickers:survivors_watched_for_their_next_periodic_report")
+	}
 	if r.Checked > 0 {
 		vcore.E.ClassN("usage_reports_compared_with_their_session's_measurements", int64(r.Checked))
 	}
@@ -838,6 +897,8 @@ func fixed() []Script {
 		{Name: "silent-burst-during-mods", Sessions: 4, URRs: 1, Periods: 1, LatencyUs: 200, Burst: 100, BurstAt: "mods", Mods: 30, Tick: "before", Bulk: "none", Silent: true},
 		{Name: "responses-meet-expiries", Sessions: 20, URRs: 1, Periods: 1, LatencyUs: 200, Burst: 100, BurstAt: "mods", Mods: 40, Tick: "before", Bulk: "none", RetransMs: 1},
 		{Name: "burst-600-for-one-pdr", Sessions: 3, URRs: 0, Periods: 1, Burst: 600, BurstAt: "idle", BurstOne: true, Tick: "none", Bulk: "none"},
+		{Name: "real-removal-inside-a-failing-tick-of-a-shared-period", QueryErr: true, Watch: true, Real: []RealEv{{AtMs: 0, Kind: "est", Period: 1}, {AtMs: 50, Kind: "est", Period: 1},
+			{AtMs: 400, Kind: "slow", SlowMs: 500}, {AtMs: 1250, Kind: "del", Sess: 0}, {AtMs: 1900, Kind: "slow", SlowMs: 0}}},
 		{Name: "real-tick-queued-behind-last-removal", Real: []RealEv{{AtMs: 0, Kind: "est", Period: 1}, {AtMs: 200, Kind: "est", Period: 2}, {AtMs: 900, Kind: "slow", SlowMs: 500},
 			{AtMs: 2100, Kind: "del", Sess: 1}, {AtMs: 2800, Kind: "del", Sess: 0}, {AtMs: 3000, Kind: "slow", SlowMs: 0}}},
 	}
@@ -879,7 +940,7 @@ func genReal(t *rapid.T) Script {
 		}
 	}
 	sort.SliceStable(evs, func(i, j int) bool { return evs[i].AtMs < evs[j].AtMs })
-	return Script{Real: evs}
+	return Script{Real: evs, QueryErr: rapid.Bool().Draw(t, "query_err"), Watch: rapid.Bool().Draw(t, "watch")}
 }
 
 func gen(t *rapid.T) Script {
